@@ -12,6 +12,7 @@ package graphql
 
 import (
 	"context"
+	"sync/atomic"
 
 	gql "github.com/sourcenetwork/graphql-go"
 	"github.com/sourcenetwork/graphql-go/language/ast"
@@ -33,7 +34,9 @@ var _ core.Parser = (*parser)(nil)
 var tracer = telemetry.NewTracer()
 
 type parser struct {
-	schemaManager *schema.SchemaManager
+	// schemaManager is replaced when a transaction that changed the schema commits,
+	// while requests on other goroutines read it.
+	schemaManager atomic.Pointer[schema.SchemaManager]
 }
 
 func NewParser() (*parser, error) {
@@ -42,9 +45,8 @@ func NewParser() (*parser, error) {
 		return nil, err
 	}
 
-	p := &parser{
-		schemaManager: schemaManager,
-	}
+	p := &parser{}
+	p.schemaManager.Store(schemaManager)
 
 	return p, nil
 }
@@ -67,7 +69,7 @@ func (p *parser) BuildRequestAST(ctx context.Context, request string) (*ast.Docu
 }
 
 func (p *parser) IsIntrospection(ast *ast.Document) bool {
-	schema := p.schemaManager.Schema()
+	schema := p.schemaManager.Load().Schema()
 	return defrap.IsIntrospectionQuery(*schema, ast)
 }
 
@@ -75,7 +77,7 @@ func (p *parser) ExecuteIntrospection(ctx context.Context, request string) *clie
 	_, span := tracer.Start(ctx)
 	defer span.End()
 
-	schema := p.schemaManager.Schema()
+	schema := p.schemaManager.Load().Schema()
 	params := gql.Params{Schema: *schema, RequestString: request}
 	r := gql.Do(params)
 
@@ -96,7 +98,7 @@ func (p *parser) Parse(ctx context.Context, ast *ast.Document, options *client.G
 	_, span := tracer.Start(ctx)
 	defer span.End()
 
-	schema := p.schemaManager.Schema()
+	schema := p.schemaManager.Load().Schema()
 	validationResult := gql.ValidateDocument(schema, ast, nil)
 	if !validationResult.IsValid {
 		errors := make([]error, len(validationResult.Errors))
@@ -113,7 +115,7 @@ func (p *parser) ParseSDL(ctx context.Context, sdl string) ([]core.Collection, e
 	_, span := tracer.Start(ctx)
 	defer span.End()
 
-	return p.schemaManager.ParseSDL(sdl)
+	return p.schemaManager.Load().ParseSDL(sdl)
 }
 
 func (p *parser) SetSchema(ctx context.Context, collections []client.CollectionDefinition) error {
@@ -134,12 +136,12 @@ func (p *parser) SetSchema(ctx context.Context, collections []client.CollectionD
 
 	txn.OnSuccess(
 		func() {
-			p.schemaManager = schemaManager
+			p.schemaManager.Store(schemaManager)
 		},
 	)
 	return err
 }
 
 func (p *parser) NewFilterFromString(collectionType string, body string) (immutable.Option[request.Filter], error) {
-	return defrap.NewFilterFromString(*p.schemaManager.Schema(), collectionType, body)
+	return defrap.NewFilterFromString(*p.schemaManager.Load().Schema(), collectionType, body)
 }
